@@ -122,6 +122,24 @@ Definition mem_str (k : string) (l : list string) : bool := existsb (String.eqb 
 Fixpoint nodup_str (l : list string) : bool :=
   match l with [] => true | k :: r => negb (mem_str k r) && nodup_str r end.
 
+(* an inner statement that cannot see the CTEs named [names]: SELECTs without their own WITH (and
+   UNIONs of such) whose tables (joins included) do not start with one of the names and are not
+   derived tables.  Subqueries inside expressions are unrestricted: they never see CTEs. *)
+Fixpoint from_avoids (names : list string) (f : from_clause stmt) : bool :=
+  match f with
+  | FDual | FTableFn _ _ _ => true
+  | FTable [] _ => true
+  | FTable (k :: _) _ => negb (mem_str k names)
+  | FDerived _ _ => false
+  | FJoin _ _ l r _ => from_avoids names l && from_avoids names r
+  end.
+
+Fixpoint avoids (names : list string) (q : stmt) : bool :=
+  match q with
+  | SSelect s => match s_with s with [] => from_avoids names (s_from s) | _ => false end
+  | SUnion _ l r _ _ => avoids names l && avoids names r
+  end.
+
 (* a CTE chain: every body is a stage whose table is an earlier CTE or a document key that is not a
    CTE name (so it does not read itself or a later CTE); the names are distinct *)
 Fixpoint chain_scoped (w : list (string * stmt)) : bool :=
@@ -144,11 +162,17 @@ Definition chain_ok (w : list (string * stmt)) : bool :=
 (* [pred] is the predicate p as a function of the row it is evaluated on; [outer] is the current
    outer row (with its `<-` back reference).  Each element must be an object; p sees the element's
    columns together with the outer row's — on a name clash the OUTER row's value is the one p sees
-   ([obj_merge elem outer] copies the outer row over the element) *)
+   ([obj_merge elem outer] copies the outer row over the element).  A panic while p is evaluated
+   is recovered by the engine and reported as an error. *)
 Definition exists_sem (pred : row -> res bool) (outer : row) (elems : list value) : res bool :=
   let! merged := mapM (fun e => match e with VObj kv => Ok (obj_merge kv outer) | _ => Err end) elems in
-  let! bs := mapM pred merged in
-  Ok (existsb (fun b => b) bs).
+  catch_panic (let! bs := mapM pred merged in Ok (existsb (fun b => b) bs)).
+
+(* the subquery of EXISTS: no GROUP BY, DISTINCT, ORDER BY, LIMIT or OFFSET, and a select list that
+   is not made of aggregates only (an aggregate-only list yields one row whatever p says) *)
+Definition exists_shape (s : select stmt) : Prop :=
+  s_group s = [] /\ s_distinct s = false /\ s_order s = [] /\ s_limit s = None /\
+  s_offset s = None /\ all_aggregate (s_items s) = false.
 
 (* the value a subquery row contributes to IN: its single column *)
 Definition sub_column (r : value) : res value :=
